@@ -364,6 +364,27 @@ class _constant(_mpf):
     def __repr__(self):
         return "<%s: %s~>" % (self.name, self.context.nstr(self(dps=15)))
 
+    # A constant is an immutable object of its context; it is copied by
+    # reference and pickled by name (like the numbers, through the global
+    # context: see the pickle hack in __init__)
+    def __copy__(self):
+        return self
+
+    def __deepcopy__(self, memo):
+        return self
+
+    def __reduce__(self):
+        if _named_constants.get(self.name) is not self:
+            import pickle
+            raise pickle.PicklingError("Can't pickle %r: it is not a "
+                "constant of the global context" % self)
+        return (_constant_from_name, (self.name,))
+
+_named_constants = {}
+
+def _constant_from_name(name):
+    return _named_constants[name]
+
 
 class _mpc(mpnumeric):
     """
